@@ -378,6 +378,14 @@ impl Sim {
                     _ => "badhandle".into(),
                 }
             }
+            ["batch", rest @ ..] => {
+                // several application calls back to back, before the connection task runs again
+                let mut outs = vec![];
+                for call in rest.split(|t| *t == ";") {
+                    outs.push(self.op(call));
+                }
+                outs.join(" , ")
+            }
             ["dropmany", hs @ ..] => {
                 // several `MuxStream`s dropped back to back, before the connection task runs again
                 // (a `Vec` of streams going out of scope, a cancelled task that owned several)
